@@ -223,16 +223,37 @@ def g_enough_logged(body, facts):
     return out
 
 
+def _is_atomic_load(c):
+    return c.endswith("AtomicBool::load") or c == "core::sync::atomic::Atomic::load" or c.endswith("atomic::Atomic::<T>::load")
+
+
+def _loads_poisoned(body, t):
+    return _is_atomic_load(t.get("callee", "")) and t["args"] and any("poisoned" in r.fields for r in trace(body, t["args"][0]))
+
+
+def _returns_poisoned_flag(facts, callee, depth=0):
+    """a bool helper whose return value is the poisoned flag (`fn is_poisoned(&self) -> bool { self.shared.poisoned.load(..) }`)"""
+    cb = facts.bodies.get(callee) if facts is not None else None
+    if cb is None or cb.crate != "nomt" or depth > 2 or cb.local_ty(0) != "bool":
+        return False
+    for r in trace(cb, {"l": 0}):
+        if r.kind == "call" and r.obj is not None:
+            if _loads_poisoned(cb, r.obj):
+                return True
+            if _returns_poisoned_flag(facts, str(r.what), depth + 1):
+                return True
+    return False
+
+
 def g_poisoned(body, facts):
     out = []
     for b, t in body.calls():
-        c = t.get("callee", "")
-        if (c.endswith("AtomicBool::load") or c == "core::sync::atomic::Atomic::load" or c.endswith("atomic::Atomic::<T>::load")) and t["args"]:
-            for r in trace(body, t["args"][0]):
-                if "poisoned" in r.fields:
-                    for sw in switches_on_call(body, b):
-                        out.append((sw, "poisoned.load()", t.get("ln")))
-                    break
+        if _loads_poisoned(body, t):
+            for sw in switches_on_call(body, b):
+                out.append((sw, "poisoned.load()", t.get("ln")))
+        elif _returns_poisoned_flag(facts, t.get("callee", "")):
+            for sw in switches_on_call(body, b):
+                out.append((sw, "%s() (returns poisoned.load())" % t["callee"].rsplit("::", 1)[1], t.get("ln")))
     return out
 
 
